@@ -39,7 +39,9 @@ ASSUMPTIONS = ['os.path.exists/isdir/isfile/relpath/normpath/splitext and '
 
 def check_names(program, rep):
     """Scope resolution over the whole package."""
-    bnames = set(dir(builtins))
+    bnames = set(dir(builtins)) | {'__class__', '__name__', '__file__',
+                                   '__doc__', '__qualname__',
+                                   '__module__'}
     n_checked = 0
     for m in program.modules.values():
         modnames = set(program.module_names(m.name)) | {
